@@ -192,6 +192,8 @@ def _remove_loop():
 
 
 def _in_list(lst, u):
+    if hasattr(lst, 'has') and not hasattr(lst, 'len'):
+        return lst.has(u)       # a set passed where an Iterable is expected: membership is all that matters
     return exists(lambda i: (i >= 0) & (i < lst.len) & (lst[i] == u))
 
 
@@ -601,6 +603,10 @@ add_updates = Contract(
                 (s.old.self._messages._uids.has(u) | _in_msgs(s, u)) & ~_in_list(s.expunged, u) &
                 ~s.old.self._messages._pending_remove.has(u))))),
         ('hide_flag_untouched', lambda s: s.self._hide_expunged == s.old.self._hide_expunged),
+        ('hidden_expunges_are_deferred', lambda s: implies(s.self._hide_expunged, forall(
+            lambda u: _sm(s)._pending_remove.has(u) == (s.old.self._messages._pending_remove.has(u) | _in_list(s.expunged, u))))),
+        ('nothing_stays_deferred_when_expunges_are_visible', lambda s: implies(
+            ~s.self._hide_expunged, _sm(s)._pending_remove.is_empty())),
     ],
     calls={'self._messages._update': sm_update, 'self._messages._remove': sm_remove, 'self._session_flags.remove': sess_remove},
     modifies=['self._messages', 'self._session_flags'], raises_only=(), returns=NoneS())
